@@ -132,6 +132,29 @@ Qed.
 (* ------------------------------------------------------------------ *)
 (* round trip                                                           *)
 
+Section Delivered.
+  Variables H B : Type.
+  (* what the receiver must hand over for a sent message, given the caller's buffer *)
+  Definition delivered (h : H) (b : B) (p : list byte) (bufcap : N) (rest : list byte) : rres H B :=
+    if lenN p =? 0 then ROk h b [] false false rest
+    else ROk h b p (fits (lenN p) bufcap) (negb (crc32c p =? 0)) rest.
+
+  Lemma delivered_is_ok h b p c rest :
+    exists p' i k, delivered h b p c rest = ROk h b p' i k rest.
+  Proof. unfold delivered. destruct (lenN p =? 0); eauto. Qed.
+
+  (* the payload handed over is byte-for-byte the payload sent, and it is in the caller's buffer iff it fits *)
+  Lemma delivered_payload h b p c rest :
+    exists i k, delivered h b p c rest = ROk h b p i k rest /\
+                (i = true <-> (0 < lenN p /\ lenN p <= c)).
+  Proof.
+    unfold delivered, fits. destruct (lenN p =? 0) eqn:E.
+    - assert (p = []) as -> by (destruct p; [reflexivity|rewrite lenN_cons in E; lia]).
+      exists false, false. split; [reflexivity|]. rewrite lenN_nil. split; [discriminate|lia].
+    - eexists _, _. split; [reflexivity|]. lia.
+  Qed.
+End Delivered.
+
 Section RoundTrip.
   Variables H B : Type.
   Variable genc_h : H -> list byte.
@@ -145,11 +168,8 @@ Section RoundTrip.
   Notation send := (send H B genc_h genc_b).
   Notation recv := (recv H B gdec_h gdec_b).
   Notation recv_seq := (recv_seq H B gdec_h gdec_b).
+  Notation delivered := (delivered H B).
 
-  (* what the receiver must hand over for a sent message, given the caller's buffer *)
-  Definition delivered (h : H) (b : B) (p : list byte) (bufcap : N) (rest : list byte) : rres H B :=
-    if lenN p =? 0 then ROk h b [] false false rest
-    else ROk h b p (fits (lenN p) bufcap) (negb (crc32c p =? 0)) rest.
 
   Lemma recv_send h b p bufcap isbulk rest :
     lenN p < 2 ^ 32 ->
@@ -188,9 +208,6 @@ Section RoundTrip.
     | _, _ => []
     end.
 
-  Lemma delivered_is_ok h b p c rest :
-    exists p' i k, delivered h b p c rest = ROk h b p' i k rest.
-  Proof. unfold delivered. destruct (lenN p =? 0); eauto. Qed.
 
   Lemma frame_roundtrip_lemma : forall ms caps tail,
     Forall msg_ok ms -> length caps = length ms ->
@@ -203,22 +220,230 @@ Section RoundTrip.
       cbn [wire flat_map map combine recv_seq expected].
       change (flat_map (fun '(h, b, p, _) => send h b p) ms) with (wire ms).
       rewrite <- app_assoc, recv_send by assumption.
-      destruct (delivered_is_ok h b p c (wire ms ++ tail)) as (p' & i & k & E).
+      destruct (delivered_is_ok H B h b p c (wire ms ++ tail)) as (p' & i & k & E).
       rewrite E. f_equal. apply IH; [assumption|]. simpl in Hl. lia.
   Qed.
 
-  (* the payload handed over is byte-for-byte the payload sent, and it is in the caller's buffer iff it fits *)
-  Lemma delivered_payload h b p c rest :
-    exists i k, delivered h b p c rest = ROk h b p i k rest /\
-                (i = true <-> (0 < lenN p /\ lenN p <= c)).
-  Proof.
-    unfold delivered, fits. destruct (lenN p =? 0) eqn:E.
-    - assert (p = []) as -> by (destruct p; [reflexivity|rewrite lenN_cons in E; lia]).
-      exists false, false. split; [reflexivity|]. rewrite lenN_nil. split; [discriminate|lia].
-    - eexists _, _. split; [reflexivity|]. lia.
-  Qed.
 End RoundTrip.
 
 (* the trivial codec satisfies the gob laws (so the Section hypotheses are satisfiable) *)
 Lemma tgdec_tgenc m rest : tgdec (tgenc m ++ rest) = GOk m (lenN (tgenc m)).
 Proof. reflexivity. Qed.
+
+(* ------------------------------------------------------------------ *)
+(* transit damage: one burst of at most 32 bits                        *)
+
+From BLB Require Import Lib.CRCProofs.
+
+Lemma app_eq_len {A} : forall (a b x y : list A),
+  a ++ x = b ++ y -> length a = length b -> a = b /\ x = y.
+Proof.
+  induction a as [|u a IH]; intros [|v b] x y E L; simpl in *; try discriminate; auto.
+  inversion E; subst. destruct (IH b x y H1) as [-> ->]; [lia|auto].
+Qed.
+
+Lemma mod256_small a k : a < 256 -> (a + 256 * k) mod 256 = a.
+Proof.
+  intros Ha. replace (a + 256 * k) with (a + k * 256) by lia.
+  rewrite N.mod_add by lia. apply N.mod_small, Ha.
+Qed.
+
+Lemma div256_small a k : a < 256 -> (a + 256 * k) / 256 = k.
+Proof.
+  intros Ha. replace (a + 256 * k) with (a + k * 256) by lia.
+  rewrite N.div_add by lia. rewrite N.div_small by exact Ha. lia.
+Qed.
+
+(* four bytes read as a little-endian word and written back are the same four bytes *)
+Lemma le32_of_le4 cf : length cf = 4%nat -> Forall (fun x => x < 256) cf -> le32 (of_le cf) = cf.
+Proof.
+  intros L F.
+  destruct cf as [|a [|b [|c [|d [|? ?]]]]]; try discriminate.
+  inversion F as [|? ? Ha F1]; subst. inversion F1 as [|? ? Hb F2]; subst.
+  inversion F2 as [|? ? Hc F3]; subst. inversion F3 as [|? ? Hd _]; subst.
+  unfold le32, of_le. cbn [fold_right].
+  rewrite !land_255_mod, !N.shiftr_div_pow2.
+  change (2 ^ 8) with 256. change (2 ^ 16) with (256 * 256). change (2 ^ 24) with (256 * 256 * 256).
+  rewrite <- !N.div_div by lia.
+  rewrite N.mul_0_r, N.add_0_r.
+  rewrite !div256_small by assumption.
+  rewrite !mod256_small by assumption.
+  rewrite (N.mod_small d 256) by assumption.
+  reflexivity.
+Qed.
+
+Lemma of_le4_lt cf : length cf = 4%nat -> Forall (fun x => x < 256) cf -> of_le cf < 2 ^ 32.
+Proof.
+  intros L F.
+  destruct cf as [|a [|b [|c [|d [|? ?]]]]]; try discriminate.
+  inversion F as [|? ? Ha F1]; subst. inversion F1 as [|? ? Hb F2]; subst.
+  inversion F2 as [|? ? Hc F3]; subst. inversion F3 as [|? ? Hd _]; subst.
+  unfold of_le. cbn [fold_right]. change (2 ^ 32) with 4294967296. lia.
+Qed.
+
+Lemma lenN_eq_length (a b : list byte) : length a = length b -> lenN a = lenN b.
+Proof. intros E. rewrite !lenN_length, E. reflexivity. Qed.
+
+Lemma burst_error_length cw cw' : burst_error cw cw' -> length cw' = length cw.
+Proof.
+  intros (e & _ & L & ->). apply xorl_length. symmetry. exact L.
+Qed.
+
+Section Burst.
+  Variables H B : Type.
+  Variable genc_h : H -> list byte.
+  Variable genc_b : B -> list byte.
+  Variable gdec_h : list byte -> gres H.
+  Variable gdec_b : list byte -> gres B.
+  Hypothesis gdec_h_genc : forall m rest, gdec_h (genc_h m ++ rest) = GOk m (lenN (genc_h m)).
+  Hypothesis gdec_b_genc : forall m rest, gdec_b (genc_b m ++ rest) = GOk m (lenN (genc_b m)).
+
+  Notation send := (send H B genc_h genc_b).
+  Notation recv := (recv H B gdec_h gdec_b).
+
+  (* the part of a frame before the payload: gob(header) gob(body) le32(len) le32(crc of those) *)
+  Definition frame_prefix (h : H) (b : B) (n : N) : list byte :=
+    let hb := genc_h h ++ genc_b b in
+    hb ++ le32 n ++ le32 (crc32c (hb ++ le32 n)).
+
+  Lemma send_split h b p :
+    lenN p <> 0 -> send h b p = frame_prefix h b (lenN p) ++ p ++ le32 (crc32c p).
+  Proof using.
+    clear gdec_h_genc gdec_b_genc gdec_h gdec_b. intros Hn. unfold send, frame_prefix. rewrite !crc32c_t_correct.
+    destruct (lenN p =? 0) eqn:E; [lia|]. rewrite <- !app_assoc. reflexivity.
+  Qed.
+
+  (* the receiver gets through an undamaged prefix and arrives at the payload *)
+  Lemma recv_after_prefix h b n bufcap (p' cf' rest : list byte) :
+    n < 2 ^ 32 -> n <> 0 -> lenN p' = n -> length cf' = 4%nat ->
+    recv (frame_prefix h b n ++ p' ++ cf' ++ rest) bufcap true =
+      if negb (of_le cf' =? 0) && negb (of_le cf' =? crc32c p') then RErrCrc rest
+      else ROk h b p' (fits n bufcap) (negb (of_le cf' =? 0)) rest.
+  Proof.
+    intros Hn Hn0 Hp Hc. unfold frame_prefix, recv.
+    rewrite <- !app_assoc.
+    rewrite gdec_h_genc, takeN_app.
+    rewrite gdec_b_genc, takeN_app.
+    rewrite takeN_4_le32. rewrite takeN_4_le32.
+    rewrite crc_t_chain.
+    rewrite (of_le_le32 (crc32c _)) by apply crc32c_lt.
+    rewrite app_assoc, N.eqb_refl. cbn [negb].
+    rewrite of_le_le32 by exact Hn.
+    destruct (n =? 0) eqn:E0; [lia|]. cbn [negb].
+    rewrite <- Hp, takeN_app.
+    assert (L4 : lenN cf' = 4) by (rewrite lenN_length, Hc; reflexivity).
+    rewrite <- L4, takeN_app, crc32c_t_correct. reflexivity.
+  Qed.
+
+  (* [FULL] clause: a burst inside payload ++ payload checksum that does not turn the checksum field into 0 is rejected *)
+  Lemma burst_payload_unless_zero h b p p' cf' rest bufcap :
+    0 < lenN p -> lenN p < 2 ^ 32 ->
+    length cf' = 4%nat -> Forall (fun x => x < 256) cf' ->
+    burst_error (bits_of (p ++ le32 (crc32c p))) (bits_of (p' ++ cf')) ->
+    of_le cf' <> 0 ->
+    send h b p = frame_prefix h b (lenN p) ++ p ++ le32 (crc32c p) /\
+    recv (frame_prefix h b (lenN p) ++ p' ++ cf' ++ rest) bufcap true = RErrCrc rest.
+  Proof.
+    intros Hp0 Hp Hc Hf Hb Hz. split; [apply send_split; lia|].
+    assert (Lp : length p' = length p).
+    { apply burst_error_length in Hb. rewrite !bits_of_length, !app_length, Hc, le32_length in Hb. lia. }
+    rewrite recv_after_prefix; [|exact Hp|lia|apply lenN_eq_length, Lp|exact Hc].
+    assert (Hne : crc32c p' <> of_le cf').
+    { apply (crc_detects_burst p p' (crc32c p) (of_le cf') eq_refl).
+      rewrite !codeword_bytes, le32_of_le4 by assumption. exact Hb. }
+    destruct (of_le cf' =? 0) eqn:E1; [apply N.eqb_eq in E1; contradiction|].
+    destruct (of_le cf' =? crc32c p') eqn:E2; [apply N.eqb_eq in E2; congruence|].
+    reflexivity.
+  Qed.
+
+  (* what the zero escape does: with a zero checksum field anything of the right length is delivered *)
+  Lemma zero_field_delivers h b n p' rest bufcap :
+    n < 2 ^ 32 -> n <> 0 -> lenN p' = n ->
+    recv (frame_prefix h b n ++ p' ++ [0; 0; 0; 0] ++ rest) bufcap true = ROk h b p' (fits n bufcap) false rest.
+  Proof.
+    intros Hn Hn0 Hp. rewrite recv_after_prefix by (try assumption; reflexivity). reflexivity.
+  Qed.
+
+  (* [PARTIAL] clause: a burst inside gob(header) gob(body) le32(len) le32(crc): if gob rejects the damaged bytes the
+     receiver reports that error; if gob still consumes the original extent, the checksum comparison fails. *)
+  Lemma burst_header_partial h b n (hb' lenb' crcb' tl : list byte) bufcap isbulk :
+    let hb := genc_h h ++ genc_b b in
+    length hb' = length hb -> length lenb' = 4%nat -> length crcb' = 4%nat ->
+    Forall (fun x => x < 256) crcb' ->
+    burst_error (bits_of (hb ++ le32 n ++ le32 (crc32c (hb ++ le32 n)))) (bits_of (hb' ++ lenb' ++ crcb')) ->
+    let s' := hb' ++ lenb' ++ crcb' ++ tl in
+    (* gob on the damaged stream: *)
+    (exists k, gdec_h s' = GErr k) \/
+    (exists h' n1, gdec_h s' = GOk h' n1 /\ n1 <= lenN hb' /\
+       ((exists k, gdec_b (dropN n1 s') = GErr k) \/
+        (exists b' n2, gdec_b (dropN n1 s') = GOk b' n2 /\ n1 + n2 = lenN hb'))) ->
+    (exists r, recv s' bufcap isbulk = RErrHdr r) \/ (exists r, recv s' bufcap isbulk = RErrBody r) \/
+    recv s' bufcap isbulk = RErrCrc tl.
+  Proof.
+    intros hb Lh Ll Lc Fc Hb s' Hg.
+    destruct Hg as [[k Hk] | (h' & n1 & Hh & Hn1 & Hg)].
+    - left. unfold recv. rewrite Hk. eauto.
+    - right.
+      assert (Ls' : lenN s' = lenN hb' + 8 + lenN tl).
+      { unfold s'. rewrite !lenN_app, (lenN_length lenb'), (lenN_length crcb'), Ll, Lc. lia. }
+      destruct (takeN_some s' n1 ltac:(lia)) as (g1 & s1 & T1).
+      destruct (takeN_spec _ _ _ _ T1) as [E1 L1].
+      assert (D1 : dropN n1 s' = s1) by (unfold dropN; rewrite T1; reflexivity).
+      rewrite D1 in Hg.
+      destruct Hg as [[k Hk] | (b' & n2 & Hbd & Hn2)].
+      + left. unfold recv. rewrite Hh, T1, Hk. eauto.
+      + right.
+        assert (Ls1 : lenN s1 = lenN s' - n1) by (rewrite E1, lenN_app, L1; lia).
+        destruct (takeN_some s1 n2 ltac:(lia)) as (g2 & s2 & T2).
+        destruct (takeN_spec _ _ _ _ T2) as [E2 L2].
+        (* g1 ++ g2 is the damaged gob part, s2 the rest *)
+        assert (E : (g1 ++ g2) ++ s2 = hb' ++ (lenb' ++ crcb' ++ tl)).
+        { rewrite <- app_assoc, <- E2, <- E1. reflexivity. }
+        apply app_eq_len in E.
+        2:{ apply Nat2N.inj. rewrite <- !lenN_length, lenN_app. lia. }
+        destruct E as [Eg Es2].
+        unfold recv. rewrite Hh, T1, Hbd, T2, Es2.
+        assert (L4 : lenN lenb' = 4) by (rewrite lenN_length, Ll; reflexivity).
+        assert (L4c : lenN crcb' = 4) by (rewrite lenN_length, Lc; reflexivity).
+        rewrite <- L4 at 1. rewrite takeN_app.
+        rewrite <- L4c at 1. rewrite takeN_app.
+        rewrite crc_t_chain, app_assoc, Eg.
+        assert (Hne : crc32c (hb' ++ lenb') <> of_le crcb').
+        { apply (crc_detects_burst (hb ++ le32 n) (hb' ++ lenb') (crc32c (hb ++ le32 n)) (of_le crcb') eq_refl).
+          rewrite !codeword_bytes, le32_of_le4 by assumption. rewrite <- !app_assoc. exact Hb. }
+        destruct (of_le crcb' =? crc32c (hb' ++ lenb')) eqn:E3; [apply N.eqb_eq in E3; congruence|].
+        reflexivity.
+  Qed.
+End Burst.
+
+(* ------------------------------------------------------------------ *)
+(* F8: the refutation witness, on the trivial codec                    *)
+
+Definition f8_p : list byte := [129].          (* crc32c [129] = 0x22E0EB2A < 2^31 *)
+Definition f8_p' : list byte := [1].
+Definition f8_cf' : list byte := [0; 0; 0; 0].
+
+Lemma f8_burst : burst_error (bits_of (f8_p ++ le32 (crc32c f8_p))) (bits_of (f8_p' ++ f8_cf')).
+Proof.
+  (* 7 clean bits, then the last payload bit and the 30 significant checksum bits (31 bits), then 2 clean bits *)
+  apply (burst_error_intro _ _ 7 (true :: firstn 30 (bits_of (le32 (crc32c f8_p)))) 2).
+  - vm_compute. lia.
+  - reflexivity.
+  - vm_compute. reflexivity.
+  - vm_compute. reflexivity.
+Qed.
+
+Lemma f8_witness :
+  exists (p p' cf' : list byte),
+    0 < lenN p /\ lenN p < 2 ^ 32 /\ length cf' = 4%nat /\ Forall (fun x => x < 256) cf' /\
+    burst_error (bits_of (p ++ le32 (crc32c p))) (bits_of (p' ++ cf')) /\
+    p' <> p /\
+    send byte byte tgenc tgenc 7 9 p = frame_prefix byte byte tgenc tgenc 7 9 (lenN p) ++ p ++ le32 (crc32c p) /\
+    recv byte byte tgdec tgdec (frame_prefix byte byte tgenc tgenc 7 9 (lenN p) ++ p' ++ cf') 0 true
+      = ROk 7 9 p' false false [].
+Proof.
+  exists f8_p, f8_p', f8_cf'.
+  split; [reflexivity|]. split; [reflexivity|]. split; [reflexivity|].
+  split; [repeat constructor|]. split; [exact f8_burst|]. split; [discriminate|].
+  split; vm_compute; reflexivity.
+Qed.
